@@ -51,7 +51,7 @@ Param Hist::genParam(const std::string& name, std::string* descr) {
         if (explicitDims) p.set(v, dims); else if (prod == 1 && rng.chance(50)) p.set(v[0]); else p.set(v); }
     else if (type == 1) { std::vector<float> v; for (size_t i = 0; i < prod; ++i) v.push_back(bitsf(genFloatBits(rng, specialFloats)));
         if (explicitDims) p.set(v, dims); else if (prod == 1 && rng.chance(50)) p.set(v[0]); else p.set(v); }
-    else { std::vector<std::string> v; bool wide = rng.chance(12); for (size_t i = 0; i < prod; ++i) { int l = rng.chance(15) ? 0 : rng.range(1, 12); if (wide && (i == 0 || rng.chance(10))) l = rng.range(120, 255); /* very uneven widths: long padding runs */ std::string s; for (int k = 0; k < l; ++k) s += (char)("ABCdef ghi_12"[rng.below(13)]); while (!s.empty() && s[s.size() - 1] == ' ') s[s.size() - 1] = 'z'; v.push_back(s); }
+    else { std::vector<std::string> v; bool wide = rng.chance(12); for (size_t i = 0; i < prod; ++i) { int l = rng.chance(15) ? 0 : rng.range(1, 12); if (wide && (i == 0 || rng.chance(10))) l = rng.range(120, 255); /* very uneven widths: long padding runs */ std::string s; for (int k = 0; k < l; ++k) s += (char)("ABCdef ghi_12"[rng.below(13)]); while (!s.empty() && s[s.size() - 1] == ' ') s[s.size() - 1] = 'z'; if (!s.empty() && rng.chance(6)) s[s.size() - 1] = "\t\n\r\v\f"[rng.below(5)]; /* a cell may END in white space other than a blank: only blanks are padding */ v.push_back(s); }
         if (explicitDims) p.set(v, dims); else if (prod == 1 && rng.chance(50)) p.set(v[0]); else p.set(v); }
     } catch (const std::exception& e) { Outcome oc = classify(e); log.viol("C09", "set/consistent_refused/" + oc.cls, "while building a parameter: " + d.str() + ": " + oc.what); p.set(1); }
     if (rng.chance(25)) p.lock();
@@ -171,6 +171,29 @@ bool Hist::opParamSet() {
         size_t got = type == 0 ? after.iv.size() : type == 1 ? after.fv.size() : after.sv.size();
         if (after.dims != want || after.type != wt || got != n) log.viol("C09", "set/stored_shape", a.str() + " stored dims=" + dimsToStr(after.dims) + " type=" + std::to_string(after.type));
     }
+    return true;
+}
+
+// A parameter OF THE OBJECT ITSELF handed to parameter() by reference, into a new or another existing group (the reference must stay valid
+// while the group array grows).
+bool Hist::opSelfParam() {
+    std::vector<size_t> gs; for (size_t g = 0; g < prev.groups.size(); ++g) if (!prev.groups[g].name.empty() && !prev.groups[g].params.empty()) gs.push_back(g);
+    if (gs.empty()) return false;
+    size_t g = gs[rng.below(gs.size())]; size_t pi = rng.below(prev.groups[g].params.size());
+    const SParam& sp = prev.groups[g].params[pi];
+    static const char* managed[] = {"USED", "FRAMES", "LABELS", "DESCRIPTIONS", "UNITS", "SCALE", "OFFSET", "RATE", "DATA_START", "GEN_SCALE", "FORMAT", "BITS"};
+    std::vector<std::string> gnames; for (size_t k = 0; k < prev.groups.size(); ++k) if (!prev.groups[k].name.empty()) gnames.push_back(prev.groups[k].name);
+    std::string target;
+    if (rng.chance(65) && prev.groups.size() < 127) target = freshName("Cpy", gnames);
+    else { target = gnames[rng.below(gnames.size())]; std::string ut = target; for (size_t i = 0; i < ut.size(); ++i) ut[i] = (char)toupper((unsigned char)ut[i]);
+        if (ut == "POINT" || ut == "ANALOG") for (size_t k = 0; k < sizeof managed / sizeof managed[0]; ++k) if (sp.name == managed[k]) return false; }
+    if (sp.name.empty() || sp.type == ezc3d::NONE || sp.name == "DATA_START") return false;   /* (the writer treats ANY parameter named DATA_START as the data pointer; observation in DESIGN 9) */
+    log.pre("parameter", "self"); Outcome oc; VF_TRY(oc, obj->parameter(target, obj->parameters().group(g).parameter(pi)));
+    log.ev("self_param", "from=\"" + esc(prev.groups[g].name) + ":" + esc(sp.name) + "\" into=\"" + esc(target) + "\"" + (prev.findGroup(target) < 0 ? "(new)" : ""), oc); bump("op:self_param");
+    if (!wild) { if (oc.threw) log.viol("C09", "param/valid_refused/self_param/" + oc.cls, oc.what);
+        else { Snap cur = take(*obj); int gi = cur.findGroup(target); const SParam* got = gi >= 0 && cur.groups[gi].find(sp.name) >= 0 ? &cur.groups[gi].params[cur.groups[gi].find(sp.name)] : 0;
+            if (!got || *got != sp) log.viol("C09", "param/self_reference_copy_differs", "a parameter of the object handed back by reference is not stored with the same content"); } }
+    afterMutator("self_param", oc);
     return true;
 }
 
